@@ -230,13 +230,31 @@ pub fn bad_rule() -> RuleSpec {
     RuleSpec { name: "BAD-sum-mul-out-unconditional", lhs: "(sum $x (mul ?c ?a))", rhs: "(mul ?c (sum $x ?a))", not_free: None }
 }
 
+/// A conditional rule's side condition "slot `s` does not occur in the binding of `v`" is built in one of eight equivalent ways, chosen
+/// per (case, rule): the harness's own closure, or the crate's public condition combinators `slot_free_in`, `not`, `and`, `or`
+/// (a user writes conditional rules with these; all five must behave alike).
 pub fn mk_rewrite<N: Analysis<LArith> + 'static>(r: &RuleSpec) -> Rewrite<LArith, N> {
     match r.not_free {
         None => Rewrite::new(r.name, r.lhs, r.rhs),
         Some((s, v)) => {
-            let s = s.to_string();
-            let v = v.to_string();
-            Rewrite::new_if(r.name, r.lhs, r.rhs, move |subst: &Subst, _: &EGraph<LArith, N>| !subst[&v].slots().contains(&Slot::named(&s)))
+            let form = (crate::core::case_salt() ^ crate::rng::fnv(r.name)) % 8;
+            let own = {
+                let (s, v) = (s.to_string(), v.to_string());
+                move |subst: &Subst, _: &EGraph<LArith, N>| !subst[&v].slots().contains(&Slot::named(&s))
+            };
+            match form {
+                0 => Rewrite::new_if(r.name, r.lhs, r.rhs, own),
+                1 => Rewrite::new_if(r.name, r.lhs, r.rhs, slot_free_in::<LArith, N>(s, v)),
+                2 => Rewrite::new_if(r.name, r.lhs, r.rhs, not::<LArith, N>(not::<LArith, N>(slot_free_in::<LArith, N>(s, v)))),
+                3 => Rewrite::new_if(r.name, r.lhs, r.rhs, and::<LArith, N>(slot_free_in::<LArith, N>(s, v), own)),
+                // constants make each combinator's whole truth table matter: a `not` that is the identity, an `and` that is an `or` ... turn the
+                // condition into `true` and let the rule fire where it is invalid
+                5 => Rewrite::new_if(r.name, r.lhs, r.rhs, or::<LArith, N>(slot_free_in::<LArith, N>(s, v), not::<LArith, N>(|_: &Subst, _: &EGraph<LArith, N>| true))),
+                6 => Rewrite::new_if(r.name, r.lhs, r.rhs, and::<LArith, N>(|_: &Subst, _: &EGraph<LArith, N>| true, slot_free_in::<LArith, N>(s, v))),
+                7 => Rewrite::new_if(r.name, r.lhs, r.rhs, not::<LArith, N>(or::<LArith, N>(not::<LArith, N>(slot_free_in::<LArith, N>(s, v)), |_: &Subst, _: &EGraph<LArith, N>| false))),
+                // x or (x and not x)  ==  x
+                _ => Rewrite::new_if(r.name, r.lhs, r.rhs, or::<LArith, N>(and::<LArith, N>(slot_free_in::<LArith, N>(s, v), not::<LArith, N>(slot_free_in::<LArith, N>(s, v))), slot_free_in::<LArith, N>(s, v))),
+            }
         }
     }
 }
@@ -450,6 +468,9 @@ pub fn run_case(rng: &mut Rng, bad: bool) -> CaseOut {
         }
         if r.not_free.is_some() {
             out.inc("runs_with_conditional_rule");
+            if (crate::core::case_salt() ^ crate::rng::fnv(r.name)) % 8 != 0 {
+                out.inc("conditions_built_from_crate_combinators");
+            }
         }
     }
     if extraction_subst {
